@@ -523,6 +523,38 @@ func gen(rng *rand.Rand, tier core.Tier, emit core.Emit) {
 		args := []string{strconv.FormatInt(r.nowK, 10), strconv.FormatInt(r.livK, 10), hexs(text), intent}
 		emit("blist", append(args, r.servers...)...)
 	}
+	// (4b) through the browser again: an operand that has an invalid-UTF-8 byte where a stored value has '?' (stored values are
+	// valid UTF-8, a byte the reporter could not keep became '?'): the operand is a different string — `=` must not list the
+	// server, `!=` must.  A request parser that "cleans up" the filter text before parsing turns one into the other.
+	for i := 0; i < 24; i++ {
+		var r regGen
+		var info map[string]string
+		field := ""
+		for try := 0; try < 200 && field == ""; try++ {
+			r = randRegistry(rng, 2, 8)
+			for _, in := range r.infos {
+				for _, f := range []string{"mapname", "hostname"} {
+					if strings.Contains(in[f], "?") {
+						info, field = in, f
+					}
+				}
+			}
+		}
+		if field == "" {
+			continue
+		}
+		sib := strings.ReplaceAll(info[field], "?", pick(rng, []string{"\xe9", "\xff", "\xe8\xe9", "\xc3"}))
+		op := validOps[i%len(validOps)]
+		fc := fieldChoice{name: field, ok: true}
+		for _, c := range fieldChoices() {
+			if c.name == field {
+				fc = c
+			}
+		}
+		text, intent := joinClauses([]clauseGen{mkClause(fc, op.raw, op.name, strVal(sib))})
+		args := []string{strconv.FormatInt(r.nowK, 10), strconv.FormatInt(r.livK, 10), hexs(text), intent}
+		emit("blist", append(args, r.servers...)...)
+	}
 	// (5) GET /api/servers: all 64 presence combinations of the six flags, literal spellings drawn
 	trueish := []string{"1", "true", "t", "T", "TRUE", "True"}
 	falseish := []string{"0", "false", "f", "F", "FALSE", "False", ""}
